@@ -642,12 +642,13 @@ func (s *Store[K, V]) tryRemoveEntry(entry *Entry[K, V], reason RemoveReason) bo
 
 	switch reason {
 	case EVICTED, EXPIRED:
-		if reason == EVICTED && (!entry.flag.IsFromNVM() || entry.nvmDirty.Load()) && s.secondaryCache != nil {
+		// hand the entry over to the secondary cache workers,
+		// false if secondary cache does not take it
+		demote := func() bool {
 			var rn float32 = 1
 			if s.probability < 1 {
 				rn = s.rg.Float32()
 			}
-
 			if rn <= s.probability {
 				select {
 				case s.secondaryCacheBuf <- SecondaryCacheItem[K, V]{
@@ -659,9 +660,23 @@ func (s *Store[K, V]) tryRemoveEntry(entry *Entry[K, V], reason RemoveReason) bo
 				default:
 				}
 			}
+			return false
+		}
+		clean := entry.flag.IsFromNVM() && !entry.nvmDirty.Load()
+		if reason == EVICTED && s.secondaryCache != nil && !clean && demote() {
+			return true
 		}
 		if reason == EVICTED {
 			shard.mu.Lock()
+			if s.secondaryCache != nil && clean && entry.nvmDirty.Load() {
+				// updated after the check above, the copy in secondary cache is
+				// stale now and the new value must be written back
+				shard.mu.Unlock()
+				if demote() {
+					return true
+				}
+				shard.mu.Lock()
+			}
 			deleted = shard.delete(entry)
 			shard.mu.Unlock()
 		}
